@@ -24,6 +24,9 @@ package main
 //	rel / rel:<g>     release every held block / the blocks of group g
 //	rpause / rresume  stop / resume reading Results()      (a full results channel blocks the apply runner)
 //	epause / eresume  stop / resume reading Errors()       (a full errors channel blocks workers)
+//	wturn             wait until a background submitter holds the submit turn (it has allocated its
+//	                  sequence number and is blocked on back-pressure)
+//	wgu               wait until every other Submit call has returned (e.g. gave up waiting for the turn)
 //	settle            wait until no pipeline step is possible any more (see stable())
 //	pc                read PendingCount()
 //	pcbg / pcgo       start a PendingCount() call in the background and hold it between its two
@@ -42,7 +45,8 @@ package main
 // blk = index of the block's submit command in the scenario:
 //
 //	start                    Start() succeeded
-//	sub fail                 Submit accepted / failed
+//	en gu                    a caller entered Submit / returned an error without having had the turn
+//	acq sub fail             Submit: got the turn and allocated a number / accepted / gave the turn back
 //	dt dp dd  vt vp vd       decode / validate worker: take, put, drop (on cancellation)
 //	at ax ab aq              apply runner: receive, drop, buffer out of order, dequeue in order
 //	ap ad                    ApplyFunc called, item no longer in flight in the apply stage
@@ -252,7 +256,7 @@ func parsePipeScenario(op string) (*pipeScenario, bool) {
 				return nil, false
 			}
 			sc.cmds = append(sc.cmds, pipeCmd{name: f[0]})
-		case "start", "gate", "open", "settle", "pc", "pcbg", "pcgo", "stop", "stopbg",
+		case "start", "gate", "open", "settle", "wturn", "wgu", "pc", "pcbg", "pcgo", "stop", "stopbg",
 			"rpause", "rresume", "epause", "eresume":
 			if len(f) != 1 {
 				return nil, false
@@ -375,6 +379,7 @@ type pipeRec struct {
 	subSeen      []bool
 	seqOf        []uint64
 	curBlk       int // block dequeued by the apply stage and still in flight (-1: none)
+	turnBlk      int // block of the submitter holding the submit turn (-1: none)
 	subsInFlight int
 	rsSent       int // results sent (rs minus rd)
 	rrRead       int // results read from Results()
@@ -427,7 +432,7 @@ func (r *pipeRec) ev(s string) {
 }
 
 var pipeKinds = map[string]string{
-	"sub_ok": "sub", "sub_fail": "fail",
+	"alloc": "acq", "sub_ok": "sub", "sub_fail": "fail",
 	"decode_take": "dt", "decode_put": "dp", "decode_drop": "dd",
 	"validate_take": "vt", "validate_put": "vp", "validate_drop": "vd",
 	"apply_take": "at", "apply_drop": "ax", "apply_buf": "ab", "apply_deq": "aq",
@@ -471,16 +476,21 @@ func (r *pipeRec) onTrace(kind string, item *pipeline.BlockItem, n int) {
 	defer r.mu.Unlock()
 	r.seqOf[b] = seq
 	switch short {
+	case "acq":
+		r.turnBlk = b
 	case "sub":
+		r.turnBlk = -1
 		if r.subSeen[b] {
 			return // already inserted before the worker's take (see case "dt")
 		}
 		r.subSeen[b] = true
 		r.loc[b] = locSubCh
 	case "fail":
+		r.turnBlk = -1
 		r.loc[b] = locGone
 	case "dt":
 		if !r.subSeen[b] {
+			r.turnBlk = -1
 			// the decode worker received the item before Submit logged sub_ok:
 			// the send happened first, so sub is logged here
 			r.subSeen[b] = true
@@ -787,7 +797,7 @@ func runPipe(op string) string {
 	}
 	nb := len(sc.blocks)
 	r := &pipeRec{
-		gen: pipeGen.Add(1), sc: sc, curBlk: -1,
+		gen: pipeGen.Add(1), sc: sc, curBlk: -1, turnBlk: -1,
 		loc: make([]int, nb), heldNow: make([]bool, nb), subSeen: make([]bool, nb), seqOf: make([]uint64, nb),
 		gate: newPipeLatch(), resGate: newPipeLatch(), errGate: newPipeLatch(), pcGate: newPipeLatch(),
 	}
@@ -943,17 +953,17 @@ func runPipe(op string) string {
 		}
 		tip := pcommon.Tip{Point: pcommon.NewPoint(uint64(b), []byte{1}), BlockNumber: r.gen}
 		r.mu.Lock()
-		r.subsInFlight++
+		r.events = append(r.events, fmt.Sprintf("en:%d", b))
 		r.mu.Unlock()
 		err := p.Submit(ctx, uint(ledger.BlockTypeConway), raw, tip)
 		cancel()
 		r.mu.Lock()
 		r.subsInFlight--
 		if err != nil && r.loc[b] == locNone {
-			// refused before a sequence number was allocated (not started, stopped, or gave up
-			// waiting for its turn)
+			// returned an error without ever holding the turn (not started, stopped, or gave up
+			// waiting for its turn): no sequence number was allocated
 			r.loc[b] = locGone
-			r.events = append(r.events, fmt.Sprintf("fail:%d:-", b))
+			r.events = append(r.events, fmt.Sprintf("gu:%d", b))
 		}
 		r.mu.Unlock()
 	}
@@ -967,11 +977,18 @@ func runPipe(op string) string {
 		case "nostart":
 		case "start":
 			doStart()
-		case "s":
-			submit(c.blk)
-		case "bs":
-			bg.Add(1)
-			go func(b int) { defer bg.Done(); submit(b) }(c.blk)
+		case "s", "bs":
+			// counted before the goroutine starts: `wgu` / stable() must see a background
+			// submission that has not reached Submit yet
+			r.mu.Lock()
+			r.subsInFlight++
+			r.mu.Unlock()
+			if c.name == "s" {
+				submit(c.blk)
+			} else {
+				bg.Add(1)
+				go func(b int) { defer bg.Done(); submit(b) }(c.blk)
+			}
 		case "gate":
 			if r.gate.shut() {
 				r.ev("gate")
@@ -988,6 +1005,18 @@ func runPipe(op string) string {
 			r.errGate.shut()
 		case "eresume":
 			r.errGate.open()
+		case "wturn", "wgu":
+			for dl := time.Now().Add(pipeDeadline); time.Now().Before(dl); time.Sleep(100 * time.Microsecond) {
+				r.mu.Lock()
+				holder, inFlight := r.turnBlk, r.subsInFlight
+				r.mu.Unlock()
+				if c.name == "wturn" && holder >= 0 {
+					break
+				}
+				if c.name == "wgu" && ((holder >= 0 && inFlight <= 1) || inFlight == 0) {
+					break
+				}
+			}
 		case "settle":
 			if r.settle(pipeDeadline) {
 				r.ev("settled")
